@@ -22,7 +22,9 @@ import (
 //     position at a module call site of F;
 //   - function literals created in F and handed to a function outside the
 //     module (walletdb.Update, sync.Once.Do, ...) or deferred: assumed to run
-//     synchronously in F.
+//     synchronously in F;
+//   - the String / Error / Format / GoString method of a module type whose
+//     value F converts to an interface (what fmt and the loggers call).
 type callGraph struct {
 	out map[*ssa.Function][]*ssa.Function
 	// goTargets: functions started by `go` statements, with the statement.
@@ -246,6 +248,39 @@ func (c *Ctx) graph() *callGraph {
 				for _, a := range cc.Args {
 					if _, isSig := a.Type().Underlying().(*types.Signature); isSig {
 						add(fn, c.valueFuncs(a, 0)...)
+					}
+				}
+			}
+		})
+	}
+	// formatting methods: a value handed to fmt / a logger as an interface has
+	// its String / Error / Format / GoString method called by the formatter,
+	// in the caller's goroutine (btclog and fmt format synchronously)
+	for _, fn := range c.P.Funcs {
+		fn := fn
+		ir.Instrs(fn, func(in ssa.Instruction) {
+			mi, ok := in.(*ssa.MakeInterface)
+			if !ok {
+				return
+			}
+			t := mi.X.Type()
+			base := t
+			if p, ok := base.(*types.Pointer); ok {
+				base = p.Elem()
+			}
+			n, ok := base.(*types.Named)
+			if !ok || n.Obj().Pkg() == nil || !c.P.IsModPkg(n.Obj().Pkg()) {
+				return
+			}
+			ms := types.NewMethodSet(t)
+			for _, name := range []string{"String", "Error", "Format", "GoString"} {
+				sel := ms.Lookup(n.Obj().Pkg(), name)
+				if sel == nil {
+					continue
+				}
+				if m, ok := sel.Obj().(*types.Func); ok {
+					if target := c.byObj[m.Origin()]; target != nil {
+						add(fn, target)
 					}
 				}
 			}
